@@ -39,6 +39,8 @@ def spec_for(nfuncs=3):
 def input_positions(spec, k):
     """input byte offset (relative to the code section start, as walrus keys them) of every operator of function k"""
     f = spec.funcs[k]
+    if f.get('positions'):
+        return [conc(p) for p in f['positions']]
     base = conc(f['start'])
     pos = 1 + 2 * len(f.get('locals', []))
     return [base + pos + j for j in range(len(f['ops']))]
@@ -99,6 +101,20 @@ def equal_terms(report, pcs, a, b, timeout_ms):
     r = s.check()
     if r == z3.unknown:
         raise Inconclusive('solver timeout on a layout equality')
+    return s.model() if r == z3.sat else None
+
+
+def find_model(report, pcs, cond, timeout_ms):
+    """a model of pcs /\\ cond under the exact LEB128 definition, or None"""
+    s = z3.Then('simplify', 'solve-eqs', 'ackermannize_bv', 'bit-blast', 'sat').solver()
+    s.set('timeout', timeout_ms)
+    terms = list(pcs) + [cond]
+    s.add(*terms)
+    s.add(*leb_definitions(terms))
+    report.queries += 1
+    r = s.check()
+    if r == z3.unknown:
+        raise Inconclusive('solver timeout on a layout inequality')
     return s.model() if r == z3.sat else None
 
 
